@@ -79,7 +79,11 @@ var durVals = []tv{{"30s", "30s"}, {"5m", "5m0s"}, {"1h", "1h0m0s"}, {"90", "1m3
 var strVals = id("opt", "dbg", "cover", "fast-1", "x_y.z", "", "a b c")
 var urlVals = id("https://a.example/x", "http://mirror.local:8080/plz", "https://get.please.build")
 var dirVals = id("BUILD", "BUILD.plz", "BUILD.bazel", "third_party", "node_modules", "/opt/bin", "/usr/sbin", "plz-out", "")
-var envVals = id("HOME", "LANG", "GOPATH", "CI", "USER")
+var envVals = id("HOME", "LANG", "PATH", "GOPATH", "PATH", "CI", "USER", "PATH", "path", "PATH2")
+var covLabels = id("slow", "cc", "py", "integration", "manual")
+
+// values of $PATH in the environment of the caller (build.path's computed default reads it)
+var callerPaths = []string{"/caller/bin:/usr/bin", "/usr/local/bin:/usr/bin:/bin", "/opt/x/bin", "", "/a::/b", "/home/u/go/bin:/usr/local/go/bin:/usr/bin:/bin", ":/bin"}
 var labelVals = id("//build_defs:go", "//third_party/go:all", "///pleasings//python:requirements", "//a/b:c", "//x:y")
 var hashVals = id("sha1", "sha256", "blake3", "xxhash", "crc32", "crc64")
 var pathVals = id("/usr/local/go", "/opt/go1.22", "", "/usr/lib/go")
@@ -149,6 +153,12 @@ var opts = []*optSpec{
 			}
 			return out
 		}},
+	{name: "build.passunsafeenv", kind: "multi", typ: "[]string", vals: envVals, def: []string{}, lateDef: true,
+		get: func(c *core.Configuration) []string { return strs(c.Build.PassUnsafeEnv) }},
+	{name: "cpp.coverage", kind: "bool", typ: "bool", vals: boolVals, ovals: boolOv, def: []string{"true"},
+		get: func(c *core.Configuration) []string { return b2s(c.Cpp.Coverage) }},
+	{name: "test.disablecoverage", kind: "multi", typ: "[]string", vals: covLabels, def: []string{},
+		get: func(c *core.Configuration) []string { return strs(c.Test.DisableCoverage) }},
 }
 
 var optByName = map[string]*optSpec{}
@@ -187,6 +197,7 @@ type envT struct {
 }
 
 type caseT struct {
+	Path      string     `json:"caller_PATH"` // $PATH of the caller
 	Default   bool       `json:"default_files"`
 	Env       envT       `json:"env"`
 	Names     []string   `json:"names,omitempty"` // explicit file names (Default == false)
@@ -196,6 +207,7 @@ type caseT struct {
 	Opens     []string   `json:"opens,omitempty"`
 	Err       string     `json:"error,omitempty"`
 	Result    [][]string `json:"result,omitempty"` // per option of `opts`, in order
+	Scenario  string     `json:"scenario,omitempty"`
 }
 
 // render writes the assignments as gcfg text. Section headers are repeated freely, field names vary in
@@ -278,6 +290,51 @@ func refOrder(c *caseT) []string {
 	return out
 }
 
+// layeredList: what the files (no -o) leave in a repeated option - accumulated in read order, a blank clears.
+func layeredList(c *caseT, name string) []string {
+	files := map[string][]assign{}
+	for _, f := range c.Files {
+		files[f.Name] = f.Assigns
+	}
+	acc := []string{}
+	for _, fn := range refOrder(c) {
+		for _, a := range files[fn] {
+			if a.Opt != name {
+				continue
+			}
+			if a.Blank {
+				acc = []string{}
+			} else {
+				acc = append(acc, a.Canon)
+			}
+		}
+	}
+	return acc
+}
+
+func contains(l []string, x string) bool {
+	for _, y := range l {
+		if x == y {
+			return true
+		}
+	}
+	return false
+}
+
+// pathPassedThrough: the files list PATH in build.passenv or build.passunsafeenv
+func pathPassedThrough(c *caseT) bool {
+	return contains(layeredList(c, "build.passenv"), "PATH") || contains(layeredList(c, "build.passunsafeenv"), "PATH")
+}
+
+// docDefault: the default of an option that no source sets. build.path has a computed one: the $PATH of the caller
+// when PATH is passed through to the build environment, else the documented /usr/local/bin:/usr/bin:/bin.
+func docDefault(c *caseT, o *optSpec) []string {
+	if o.name == "build.path" && pathPassedThrough(c) {
+		return strings.Split(c.Path, ":")
+	}
+	return o.def
+}
+
 type refResult struct {
 	vals      []string
 	mentioned bool // some source (file or -o) sets the option
@@ -317,7 +374,7 @@ func reference(c *caseT, o *optSpec) refResult {
 				}
 			}
 		}
-		res.vals = o.def
+		res.vals = docDefault(c, o)
 		return res
 	}
 	acc := []string{}
@@ -340,7 +397,7 @@ func reference(c *caseT, o *optSpec) refResult {
 		res.mentioned = true
 		res.vals = acc
 	} else {
-		res.vals = o.def
+		res.vals = docDefault(c, o)
 	}
 	return res
 }
@@ -373,6 +430,9 @@ func run(c *caseT) {
 		os.Setenv("XDG_CONFIG_HOME", c.Env.XdgHome)
 	}
 	core.RepoRoot = c.Env.Root
+	oldPath := os.Getenv("PATH")
+	os.Setenv("PATH", c.Path)
+	defer os.Setenv("PATH", oldPath)
 	m := &memFS{files: map[string]string{}}
 	rr := lib.NewRng(uint64(len(c.Files))*7919 + uint64(len(c.Profiles)))
 	for _, f := range c.Files {
@@ -478,7 +538,7 @@ func coqCase(c *caseT) string {
 		}
 		result = lib.Some(lib.List(items))
 	}
-	return lib.App("CRead", files, SList(c.Profiles), lib.List(fsItems), lib.List(ovs), SList(c.Opens), result)
+	return lib.App("CRead", S(c.Path), files, SList(c.Profiles), lib.List(fsItems), lib.List(ovs), SList(c.Opens), result)
 }
 
 // ---------------------------------------------------------------------------------------------
@@ -535,8 +595,79 @@ func genAssigns(r *lib.Rng, o *optSpec, adversarial bool) []assign {
 	return out
 }
 
+// pathScenario: the stream aimed at the computed default of build.path. build.path, build.passenv and
+// build.passunsafeenv are the focus; PATH is listed (and sometimes cleared again by a blank reset, or only named in
+// a file outside the search order / a -o) in one of the two lists, build.path is set explicitly in 0-2 files.
+func pathScenario(r *lib.Rng, c *caseT, cands []string) (map[string][]assign, []ovr) {
+	content := map[string][]assign{}
+	add := func(f string, a assign) { content[f] = append(content[f], a) }
+	pe := lib.Pick(r, []string{"build.passenv", "build.passunsafeenv"})
+	val := func(name string) assign {
+		v := lib.Pick(r, optByName[name].vals)
+		return assign{Opt: name, Text: v.text, Canon: v.canon}
+	}
+	// PATH passed through (4/5), by one or both lists
+	if !r.Chance(1, 5) {
+		add(lib.Pick(r, cands), assign{Opt: pe, Text: "PATH", Canon: "PATH"})
+		if r.Chance(1, 4) {
+			add(lib.Pick(r, cands), assign{Opt: "build.passunsafeenv", Text: "PATH", Canon: "PATH"})
+		}
+	}
+	for i, n := 0, r.Range(0, 2); i < n; i++ { // other variables around it
+		add(lib.Pick(r, cands), val(lib.Pick(r, []string{"build.passenv", "build.passunsafeenv"})))
+	}
+	if r.Chance(1, 4) { // ... cleared again somewhere (takes effect only if read later)
+		add(lib.Pick(r, cands), assign{Opt: pe, Blank: true})
+	}
+	// build.path set explicitly by 0-2 files (2/3), sometimes ending in a blank reset
+	if !r.Chance(1, 3) {
+		for i, n := 0, r.Range(1, 2); i < n; i++ {
+			add(lib.Pick(r, cands), val("build.path"))
+		}
+		if r.Chance(1, 6) {
+			add(lib.Pick(r, cands), assign{Opt: "build.path", Blank: true})
+		}
+	}
+	ovs := []ovr{}
+	if r.Chance(1, 8) {
+		ovs = append(ovs, ovr{Opt: "build.path", Text: "/ov/bin,/bin", Canon: "/ov/bin,/bin"})
+	}
+	if r.Chance(1, 8) { // -o is applied after the computed default was installed
+		ovs = append(ovs, ovr{Opt: pe, Text: "PATH", Canon: "PATH"})
+	}
+	return content, ovs
+}
+
+// covScenario: cpp.coverage and test.disablecoverage together
+func covScenario(r *lib.Rng, c *caseT, cands []string) (map[string][]assign, []ovr) {
+	content := map[string][]assign{}
+	add := func(f string, a assign) { content[f] = append(content[f], a) }
+	for i, n := 0, r.Range(1, 2); i < n; i++ {
+		v := lib.Pick(r, []tv{{"false", "false"}, {"false", "false"}, {"no", "false"}, {"true", "true"}, {"off", "false"}})
+		add(lib.Pick(r, cands), assign{Opt: "cpp.coverage", Text: v.text, Canon: v.canon})
+	}
+	for i, n := 0, r.Range(0, 2); i < n; i++ {
+		v := lib.Pick(r, covLabels)
+		add(lib.Pick(r, cands), assign{Opt: "test.disablecoverage", Text: v.text, Canon: v.canon})
+	}
+	if r.Chance(1, 6) {
+		add(lib.Pick(r, cands), assign{Opt: "test.disablecoverage", Blank: true})
+	}
+	ovs := []ovr{}
+	if r.Chance(1, 8) {
+		ovs = append(ovs, ovr{Opt: "test.disablecoverage", Text: "manual", Canon: "manual"})
+	}
+	if r.Chance(1, 8) {
+		v := lib.Pick(r, boolOv)
+		ovs = append(ovs, ovr{Opt: "cpp.coverage", Text: v.text, Canon: v.canon})
+	}
+	return content, ovs
+}
+
 func generate(r *lib.Rng) *caseT {
-	c := &caseT{Default: !r.Chance(1, 5), Env: genEnv(r)}
+	c := &caseT{Default: !r.Chance(1, 5), Env: genEnv(r), Path: lib.Pick(r, callerPaths)}
+	scenario := lib.Pick(r, []string{"", "", "", "", "", "", "", "path", "path", "cov"})
+	c.Scenario = scenario
 	np := lib.Pick(r, []int{0, 0, 1, 1, 1, 2})
 	pp := append([]string{}, profilePool...)
 	lib.Shuffle(r, pp)
@@ -559,10 +690,19 @@ func generate(r *lib.Rng) *caseT {
 	for i := 0; i < nfocus; i++ {
 		o := lib.Pick(r, opts)
 		if i > 0 && r.Chance(1, 3) { // keep the goroot/gotool pair together sometimes
-			if focus[0].name == "go.goroot" {
+			switch focus[0].name {
+			case "go.goroot":
 				o = optByName["go.gotool"]
-			} else if focus[0].name == "go.gotool" {
+			case "go.gotool":
 				o = optByName["go.goroot"]
+			case "build.path":
+				o = optByName[lib.Pick(r, []string{"build.passenv", "build.passunsafeenv"})]
+			case "build.passenv", "build.passunsafeenv":
+				o = optByName["build.path"]
+			case "cpp.coverage":
+				o = optByName["test.disablecoverage"]
+			case "test.disablecoverage":
+				o = optByName["cpp.coverage"]
 			}
 		}
 		focus = append(focus, o)
@@ -578,6 +718,22 @@ func generate(r *lib.Rng) *caseT {
 	}
 	content := map[string][]assign{}
 	exists := map[string]bool{}
+	var scenOvs []ovr
+	if scenario != "" {
+		var sc map[string][]assign
+		if scenario == "path" {
+			sc, scenOvs = pathScenario(r, c, cands)
+		} else {
+			sc, scenOvs = covScenario(r, c, cands)
+		}
+		for f, as := range sc {
+			exists[f] = true
+			content[f] = append(content[f], as...)
+		}
+		if r.Bool() {
+			focus = focus[:1] // keep one unrelated option around
+		}
+	}
 	for _, o := range focus {
 		k := r.Range(0, 4)
 		if adversarial {
@@ -639,6 +795,7 @@ func generate(r *lib.Rng) *caseT {
 			c.Overrides = append(c.Overrides, ovr{Opt: o.name, Text: v.text, Canon: v.canon})
 		}
 	}
+	c.Overrides = append(scenOvs, c.Overrides...)
 	// -o keys are a Go map: one entry per option
 	dedup := map[string]bool{}
 	ovs := []ovr{}
@@ -726,6 +883,8 @@ func oracle(c *lib.Ctx, cs *caseT) {
 	noOv := *cs
 	noOv.Overrides = nil
 	goroot := reference(&noOv, optByName["go.goroot"]).vals[0]
+	cppCoverageOff := reference(&noOv, optByName["cpp.coverage"]).vals[0] == "false"
+	callerPath := strings.Split(cs.Path, ":")
 	for i, o := range opts {
 		c.Oracle()
 		ref := reference(cs, o)
@@ -734,8 +893,26 @@ func oracle(c *lib.Ctx, cs *caseT) {
 			continue
 		}
 		class, what := "", ""
+		def := docDefault(cs, o)
 		switch {
-		case o.multi() && ref.mentioned && !ref.byOv && len(ref.vals) == 0 && o.lateDef && len(o.def) > 0 && eqs(got, o.def):
+		// "an option set by any source never gets a default": the sources leave a non-empty value, the
+		// implementation reports a default instead (a documented literal, or build.path's computed $PATH)
+		case ref.mentioned && len(ref.vals) > 0 && o.name == "build.path" && eqs(got, callerPath) && !eqs(got, o.def):
+			class = "computed-path-default-overrides-explicit-build-path"
+			what = fmt.Sprintf("build.path: a source sets it to %q but the $PATH of the caller %q is installed (PATH passed through: %v)", ref.vals, got, pathPassedThrough(cs))
+		case ref.mentioned && len(ref.vals) > 0 && len(o.def) > 0 && eqs(got, o.def):
+			class = "default-applied-to-option-set-by-a-source"
+			what = fmt.Sprintf("%s: a source sets it to %q but the default %q is reported", o.name, ref.vals, got)
+		case o.name == "build.path" && !ref.mentioned && !eqs(def, o.def) && eqs(got, o.def):
+			class = "computed-path-default-not-applied"
+			what = fmt.Sprintf("build.path: no source sets it and PATH is passed through, but %q is used, not the caller's PATH %q", got, def)
+		case o.name == "build.path" && !ref.mentioned && eqs(def, o.def) && eqs(got, callerPath):
+			class = "computed-path-default-applied-without-passenv"
+			what = fmt.Sprintf("build.path: no source lists PATH in passenv/passunsafeenv, but the caller's PATH %q is used", got)
+		case o.name == "test.disablecoverage" && !ref.byOv && cppCoverageOff && eqs(got, append(append([]string{}, ref.vals...), "cc")):
+			class = "disablecoverage-cc-appended-when-cpp-coverage-off"
+			what = fmt.Sprintf("test.disablecoverage: the sources give %q but cpp.coverage=false (from the files) makes ReadConfigFiles append \"cc\": %q", ref.vals, got)
+		case o.multi() && ref.mentioned && !ref.byOv && len(ref.vals) == 0 && o.lateDef && len(def) > 0 && eqs(got, def):
 			class = "list-default-restored-after-blank-reset"
 			what = fmt.Sprintf("%s: the sources leave the list empty (last word is a blank reset) but the default %v comes back", o.name, got)
 		case o.multi() && ref.mentioned && !ref.byOv && !ref.hasBlank && !o.lateDef && len(o.def) > 0 && eqs(got, append(append([]string{}, o.def...), ref.vals...)):
@@ -773,10 +950,12 @@ func main() {
 	lib.Main("C39", func(c *lib.Ctx) {
 		defer func() { c.Model(modelHeader(), "C39.case", "C39.check") }()
 		c.Rule("generated sets of config files in an in-memory io/fs.FS read by the real core.ReadDefaultConfigFiles (4/5, under generated HOME/XDG_*/RepoRoot) or " +
-			"core.ReadConfigFiles with an explicit name list (1/5), 0-2 profiles (incl. 'local' and a repeated profile), 1-4 focus options out of 23 sampled " +
+			"core.ReadConfigFiles with an explicit name list (1/5), 0-2 profiles (incl. 'local' and a repeated profile), 1-4 focus options out of 25 sampled " +
 			"(string, cli.URL, bool, int, cli.Duration, map[string]string entries, []string, []string with options, []BuildLabel, []cli.URL; with built-in, late and no defaults), " +
 			"each set in a random subset of the candidate files with repeated values, blank resets and empty values, then -o overrides through ApplyOverrides; " +
-			"all 23 options are read back. distinct = distinct case JSON; non-trivial = some option has >= 2 setting sources (files in the search order or -o)")
+			"3/10 of the cases are aimed at the two cross-option rules: build.path / build.passenv / build.passunsafeenv with PATH listed, cleared again, or only given by -o, " +
+			"build.path set explicitly or not, under a varied $PATH of the caller (computed default), and cpp.coverage with test.disablecoverage. " +
+			"all 25 options are read back. distinct = distinct case JSON; non-trivial = some option has >= 2 setting sources (files in the search order or -o)")
 
 		var replay caseT
 		if c.ReadReplay(&replay) {
@@ -811,6 +990,14 @@ func main() {
 			c.HistN("profiles", len(cs.Profiles))
 			c.HistN("existing_files", len(cs.Files))
 			c.HistN("overrides", len(cs.Overrides))
+			c.Hist("scenario", "s:"+cs.Scenario)
+			if cs.Err == "" {
+				pathSet := len(layeredList(cs, "build.path")) > 0
+				c.Hist("build.path", fmt.Sprintf("set_by_files=%v PATH_passed_through=%v", pathSet, pathPassedThrough(cs)))
+				if pathPassedThrough(cs) && !pathSet && cs.Path != "/usr/local/bin:/usr/bin:/bin" {
+					c.Hist("build.path", "computed default observable")
+				}
+			}
 			if cs.Err != "" {
 				c.Hist("outcome", "error")
 			} else {
